@@ -75,7 +75,10 @@ def run(ctx):
         P2["n_random"] = (0, 0)
         _std(ctx, P2)
     if not ctx.replay and not ctx.violations:
-        for cfg in ("Gen_sim.cfg", "Gen_sim_never.cfg"):
+        sims = ("Gen_sim.cfg", "Gen_sim_never.cfg")
+        if ctx.quick:                          # quick: one timing regime per seed
+            sims = (sims[ctx.seed % 2],)
+        for cfg in sims:
             P3 = dict(P)
             P3["design"] = []
             P3["gen"] = {"module": "Gen_WS", "cfg": cfg, "simulate": {"num": 40, "depth": 600},
@@ -157,7 +160,7 @@ def _trace_start(evs, k):
 
 
 MANIFEST = dict(
-    text="TLC checks exhaustively (2 resource types x 2 keys, every sequence of <=8 datastore decisions with <=2 faults, "
+    text="TLC checks exhaustively (2 resource types x 2 keys, every sequence of <=7 (quick) / <=9 (thorough) datastore decisions with <=2 faults, "
          "both watchRetryTimeout regimes) that the watcher syncer design (I_WS: per-type watcherCache state machine with "
          "mark-and-sweep resync, error counting, polling and not-installed states, results channel, status aggregation) "
          "satisfies the property layer P_WS: no update while WaitForDatastore, a deletion only for a key the stream holds, "
